@@ -429,6 +429,15 @@ class Interp:
         self.unknowns = []
         self.templates = {}
         self.inline_calls = []   # (caller, callee, line)
+        self.field_types = {}
+        try:
+            import schema
+            for sname, fields in schema.load().structs.items():
+                if sname.startswith('naga::'):
+                    for fname, fty in fields:
+                        self.field_types.setdefault(fname, set()).add(fty)
+        except Exception:
+            pass
 
     # --- helpers ---------------------------------------------------------------------------------------------------
     def fresh(self, prefix):
@@ -1012,6 +1021,15 @@ class Interp:
             return self.apply(callee, args)
         return ('callv', callee, args)
 
+    def call_value(self, fn, args):
+        """apply a callable value: closure literal, or the path of a crate function passed as a value"""
+        if fn[0] == 'closure':
+            return self.apply(fn, args)
+        if fn[0] == 'path' and fn[1] in self.c.fns:
+            self.inline_calls.append((self.frame['callee'], fn[1], 0))
+            return self.call_fn(fn[1], args)
+        return ('callv', fn, args)
+
     def apply(self, clo, args):
         """apply a closure term to argument terms"""
         _, node, cenv, mod = clo
@@ -1163,6 +1181,9 @@ class Interp:
                                                       'find_map', 'max_by_key', 'min_by_key', 'pop', 'take', 'last_key_value', 'first_key_value', 'nth'):
             return True
         if n['k'] in ('Field',):
+            tys = self.field_types.get(n['member'])
+            if tys and all(t.startswith(('[', 'Vec<', 'Arena<', 'UniqueArena<', 'Block')) for t in tys):
+                return False   # array / collection field: `.map` is the array / iterator map
             return True
         if n['k'] == 'Path':
             return recv[0] not in ('acc', 'tuple', 'reorder', 'new')
@@ -1199,11 +1220,11 @@ class Interp:
             c, v = ('t', ('is_some', recv)), ('unwrap', recv)
         if m == 'map':
             fn = self.expr(args_nodes[0], env)
-            r = self.apply(fn, [v]) if fn[0] == 'closure' else ('callv', fn, [v])
+            r = self.call_value(fn, [v])
             return ('opt', c, r)
         if m == 'and_then':
             fn = self.expr(args_nodes[0], env)
-            r = self.apply(fn, [v]) if fn[0] == 'closure' else ('callv', fn, [v])
+            r = self.call_value(fn, [v])
             c2, v2 = self.as_opt(r)
             if c2 is None:
                 c2, v2 = ('t', ('is_some', r)), ('unwrap', r)
@@ -1211,7 +1232,7 @@ class Interp:
         if m == 'map_or':
             d = self.expr(args_nodes[0], env)
             fn = self.expr(args_nodes[1], env)
-            r = self.apply(fn, [v]) if fn[0] == 'closure' else ('callv', fn, [v])
+            r = self.call_value(fn, [v])
             return ('alt', [(c, r), (TRUE, d)])
         if m == 'is_some_and':
             fn = self.expr(args_nodes[0], env)
@@ -1228,10 +1249,7 @@ class Interp:
         flat = recv[5] if recv[0] == 'star' else False
         self.frame['loops'].append((eid, src, conds))
         try:
-            if fn[0] != 'closure':
-                r = ('callv', fn, [body])
-            else:
-                r = self.apply(fn, [body])
+            r = self.call_value(fn, [body])
         finally:
             self.frame['loops'].pop()
         if m in ('map', 'inspect'):
